@@ -235,7 +235,7 @@ C10Params ==
     \cup { <<"lit", i, l * 10 + f>> : i \in 1 .. NEntries, l \in 1 .. Len(LitOperands), f \in 1 .. 4 }
     \cup { <<"cross", <<tl, tr>>, IF asobj THEN 1 ELSE 0>> : tl \in Triples(CrossL), tr \in Triples(CrossR), asobj \in BOOLEAN }
     \cup { <<"fresh", kx, 0>> : kx \in DOMAIN Fresh2 }
-    \cup { <<"nested", i, j>> : i \in {8, 9, 16, 18, 20, 29, 35}, j \in {8, 9, 10, 15, 18, 20, 7, 34} }
+    \cup { <<"nested", i, j>> : i \in {8, 9, 16, 18, 20, 29, 35, 27}, j \in {8, 9, 10, 15, 18, 20, 7, 34, 27} }
 
 C10ProgOf(p) ==
     CASE p[1] = "eq" ->
